@@ -198,6 +198,19 @@ pub fn generate(seed: u64, tier: &str, property: &str) -> RenderScenario {
         sacrificial: false,
         big_values: 0,
     };
+    // large outputs (every check that runs this engine): 100-300 KB through both channels, with
+    // and without escaping, as a registered template and as a one-off — beyond any size hint,
+    // buffer capacity or chunk size a render path may have
+    if seed % 97 == 13 {
+        let d = sc.config.delims.clone();
+        let body = format!("{bs} for zi in range(end=40) {be}{vs} s_long {ve}|{vs} zi {ve}{bs} endfor {be}", vs = d.vs, ve = d.ve, bs = d.bs, be = d.be);
+        sc.big_values = 1 + ((seed / 97) % 8) as usize;
+        sc.templates.push(("zz_big.html".to_string(), body.clone()));
+        sc.templates.push(("zz_big.txt".to_string(), body.clone()));
+        sc.targets.push(Target::Template { name: "zz_big.html".to_string() });
+        sc.targets.push(Target::Template { name: "zz_big.txt".to_string() });
+        sc.targets.push(Target::Str { source: body, autoescape: seed % 2 == 0 });
+    }
     // deeply nested context data (decided from the seed itself, no draw: everything else about
     // the scenario is what it would have been). C07's batch only: "with any context".
     if property == "C07" {
